@@ -2,7 +2,42 @@
 
 package checks
 
-import "verif/ev"
+import (
+	"fmt"
 
-// c15Concurrent: part (d), filled in with the scheduler harness (see c14.go).
-func c15Concurrent(r *ev.Run) int64 { return 0 }
+	"verif/ev"
+)
+
+// c15Concurrent: part (d) of C15 - concurrent lookups whose results are overwritten by their
+// owners (operation F of the C14 harness: lookup, overwrite the result, build a match through the
+// registry), on 2 and 3 threads, all interleavings under the controlled scheduler; plus the
+// free-running -race pass over the same bodies.
+func c15Concurrent(r *ev.Run) int64 {
+	c14Init()
+	ref := map[string]string{}
+	fs := []c14Op{{"F", 0}, {"F", 1}, {"F", 2}}
+	for _, o := range fs {
+		_, s := c14Run(o)
+		ref[o.String()] = s
+	}
+	var execs int64
+	bodies := c14Bodies(2, fs)
+	for i := range bodies {
+		for j := i; j < len(bodies); j++ {
+			n, _ := c14Explore(r, c14Scenario{Bodies: [][]c14Op{bodies[i], bodies[j]}, Start: 1}, ref, nil)
+			execs += n
+		}
+	}
+	for i := range fs {
+		for j := i; j < len(fs); j++ {
+			for k := j; k < len(fs); k++ {
+				n, _ := c14Explore(r, c14Scenario{Bodies: [][]c14Op{{fs[i]}, {fs[j]}, {fs[k]}}, Start: 1}, ref, nil)
+				execs += n
+			}
+		}
+	}
+	r.Completed(fmt.Sprintf("(d) 2 threads x all unordered pairs of bodies of <= 2 lookup-and-overwrite operations over 3 names, 3 threads x all multisets of single operations: all interleavings (%d schedules)", execs))
+	r.Set("concurrent_schedules", execs)
+	racePass(r, "C14")
+	return execs
+}
